@@ -125,8 +125,8 @@ def main():
         "setup_cmd": "./tools/setup.sh",
         "hooks": {
             "guard": "verif",
-            "enable": "go build tag `verif` (checks build /repo with -tags conn_insecure,verif); see DESIGN.md §2.2",
-            "baseline_off_cmd": "cd /repo && go test -vet=off -count=1 -timeout 25m ./...",
+            "enable": "go build tag `verif` (checks build /repo with -tags conn_insecure,verif); see DESIGN.md A.5 (and Part B §2.2)",
+            "baseline_off_cmd": "cd /repo && GOFLAGS=-mod=mod GOPROXY=off go test -json -vet=off -count=1 -timeout 25m ./...",
             "source_commits": HOOK_COMMITS,
             "add_only": True,
         },
